@@ -276,8 +276,15 @@ func (b *Broker) RegisterNode(id NodeID, node Node, opt ...Option) error {
 // referencing those nodes
 func (b *Broker) RemoveNode(ctx context.Context, id NodeID) error {
 	b.lock.Lock()
-	defer b.lock.Unlock()
-	return b.removeNode(ctx, id, false)
+	node, closeNode, err := b.unregisterNode(id, false)
+	b.lock.Unlock()
+	if err != nil || !closeNode {
+		return err
+	}
+
+	// The node is closed without the lock being held, as closing a node may
+	// result in the node sending events via the broker.
+	return closeRemovedNode(ctx, id, node)
 }
 
 // removeNode will remove a node from the broker, if it is not currently  in use.
@@ -286,33 +293,52 @@ func (b *Broker) RemoveNode(ctx context.Context, id NodeID) error {
 // The force option can be used to decrement the count for the node if it's still in use by pipelines
 // This function assumes that the caller holds a lock
 func (b *Broker) removeNode(ctx context.Context, id NodeID, force bool) error {
+	node, closeNode, err := b.unregisterNode(id, force)
+	if err != nil || !closeNode {
+		return err
+	}
+
+	return closeRemovedNode(ctx, id, node)
+}
+
+// unregisterNode does everything removeNode does, except closing the node: if
+// the node was removed from the broker it's returned (along with true), so that
+// the caller is able to close it once the lock is no longer held.
+// This function assumes that the caller holds a lock
+func (b *Broker) unregisterNode(id NodeID, force bool) (Node, bool, error) {
 	if id == "" {
-		return fmt.Errorf("unable to remove node, node ID cannot be empty: %w", ErrInvalidParameter)
+		return nil, false, fmt.Errorf("unable to remove node, node ID cannot be empty: %w", ErrInvalidParameter)
 	}
 
 	nodeUsage, ok := b.nodes[id]
 	if !ok {
-		return fmt.Errorf("%w: %q", ErrNodeNotFound, id)
+		return nil, false, fmt.Errorf("%w: %q", ErrNodeNotFound, id)
 	}
 
 	// if force is passed, then decrement the count for this node instead of failing
 	if nodeUsage.referenceCount > 0 && !force {
-		return fmt.Errorf("cannot remove node, as it is still in use by 1 or more pipelines: %q", id)
+		return nil, false, fmt.Errorf("cannot remove node, as it is still in use by 1 or more pipelines: %q", id)
 	}
 
-	var err error
 	switch nodeUsage.referenceCount {
 	case 0, 1:
-		nc := NewNodeController(nodeUsage.node)
-		if err = nc.Close(ctx); err != nil {
-			err = fmt.Errorf("unable to close node ID %q: %w", id, err)
-		}
 		delete(b.nodes, id)
+		return nodeUsage.node, true, nil
 	default:
 		nodeUsage.referenceCount--
 	}
 
-	return err
+	return nil, false, nil
+}
+
+// closeRemovedNode closes a node which has been removed from the broker.
+func closeRemovedNode(ctx context.Context, id NodeID, node Node) error {
+	nc := NewNodeController(node)
+	if err := nc.Close(ctx); err != nil {
+		return fmt.Errorf("unable to close node ID %q: %w", id, err)
+	}
+
+	return nil
 }
 
 // PipelineID is a string that uniquely identifies a Pipeline within a given EventType.
@@ -468,25 +494,42 @@ func (b *Broker) RemovePipelineAndNodes(ctx context.Context, t EventType, id Pip
 	}
 
 	b.lock.Lock()
-	defer b.lock.Unlock()
 
 	g, ok := b.graphs[t]
 	if !ok {
+		b.lock.Unlock()
 		return false, fmt.Errorf("no graph for EventType %s", t)
 	}
 
 	nodes, err := g.roots.Nodes(id)
 	if err != nil {
+		b.lock.Unlock()
 		return false, fmt.Errorf("unable to retrieve all nodes referenced by pipeline ID %q: %w", id, err)
 	}
 
 	g.roots.Delete(id)
 
 	var nodeErr error
+	removedIDs := make([]NodeID, 0, len(nodes))
+	removed := make([]Node, 0, len(nodes))
 
 	for _, nodeID := range nodes {
-		err = b.removeNode(ctx, nodeID, true)
+		node, closeNode, err := b.unregisterNode(nodeID, true)
 		if err != nil {
+			nodeErr = multierror.Append(nodeErr, err)
+		}
+		if closeNode {
+			removedIDs = append(removedIDs, nodeID)
+			removed = append(removed, node)
+		}
+	}
+
+	b.lock.Unlock()
+
+	// The removed nodes are closed without the lock being held, as closing a
+	// node may result in the node sending events via the broker.
+	for i, node := range removed {
+		if err := closeRemovedNode(ctx, removedIDs[i], node); err != nil {
 			nodeErr = multierror.Append(nodeErr, err)
 		}
 	}
